@@ -28,10 +28,13 @@ pub(super) fn parse_array<'a>(src: &mut &'a [u8]) -> io::Result<Array<'a>> {
 
 fn maybe_consume_delimiter(src: &mut &[u8]) -> io::Result<()> {
     const DELIMITER: u8 = b',';
+    const FIELD_TERMINATOR: u8 = b'\t';
 
     if let Some((b, rest)) = src.split_first() {
         if *b == DELIMITER {
             *src = rest;
+        } else if *b == FIELD_TERMINATOR {
+            // An empty array followed by another field.
         } else {
             return Err(io::Error::new(
                 io::ErrorKind::InvalidData,
